@@ -611,6 +611,9 @@ def _canon(t):
         m = _PRIM_BINOP.match(t[1])       # `&x & 0x80` on a reference operand is a trait call in MIR
         if m:
             return ("bin", m.group(2), t[2][0], t[2][1])
+    if t and t[0] == "f" and len(t) == 3 and isinstance(t[1], tuple) and len(t[1]) == 4 and t[1][0] == "agg" and t[1][1] == "tuple" and \
+            str(t[2]).isdigit() and int(t[2]) < len(t[1][3]):
+        return t[1][3][int(t[2])]       # field of a literally built tuple (`let (a, b) = helper(..)` after inlining)
     if t and t[0] == "f" and len(t) == 3 and t[2] == "0" and isinstance(t[1], tuple) and t[1] and t[1][0] == "dc" and t[1][2] == "Some":
         c = t[1][1]
         if isinstance(c, tuple) and c and c[0] == "call" and isinstance(c[1], str) and _UCHECKED_SUB.match(c[1]) and len(c[2]) == 2:
